@@ -32,7 +32,37 @@ func mentionsLax(e ast.Expr) bool {
 
 func init() {
 	a := "asn1/asn1.go"
+	bigBranch := func(lean, doc string, pick func(*ast.IfStmt) []ast.Stmt) unit {
+		return unit{lean, func() string {
+			fd := mustFunc("asn1/marshal.go", "makeBigInt")
+			var top *ast.IfStmt
+			for _, st := range fd.Body.List {
+				if i, ok := st.(*ast.IfStmt); ok && src(i.Cond) == "n.Sign() < 0" {
+					top = i
+				}
+			}
+			if top == nil {
+				panic(bail{"asn1/marshal.go: makeBigInt no longer branches on `n.Sign() < 0`"})
+			}
+			var rows []string
+			for _, st := range pick(top) {
+				rows = append(rows, strconv.Quote(src(st)))
+			}
+			return fmt.Sprintf("/-- generated from asn1/marshal.go func makeBigInt: %s, statement by statement -/\ndef %s : List String :=\n  [%s]\n", doc, lean, strings.Join(rows, ",\n   "))
+		}}
+	}
 	register(genFile{name: "Asn1Lax", units: []unit{
+		bigBranch("makeBigIntNegative", "the branch for n < 0", func(i *ast.IfStmt) []ast.Stmt { return i.Body.List }),
+		bigBranch("makeBigIntZeroPositive", "the branches for n = 0 and n > 0", func(i *ast.IfStmt) []ast.Stmt {
+			if e, ok := i.Else.(*ast.IfStmt); ok {
+				out := append([]ast.Stmt{}, e.Body.List...)
+				if b, ok := e.Else.(*ast.BlockStmt); ok {
+					out = append(out, b.List...)
+				}
+				return out
+			}
+			return nil
+		}),
 		{"laxSites", func() string {
 			f := parseFile(rp(a))
 			var sites []string
